@@ -188,6 +188,19 @@ func (its *TransactionDatatype) unlock() {
 	}
 }
 
+// DoRead runs a read of the datatype's state while no other goroutine changes it. Inside the transaction
+// that owns txCtx the lock is already held by the caller; any other caller shares the lock with other readers
+// and waits for a running transaction or operation to end.
+func (its *TransactionDatatype) DoRead(txCtx *TransactionContext, read func()) {
+	if txCtx != nil && its.isLocked && its.txCtx == txCtx {
+		read()
+		return
+	}
+	its.mutex.RLock()
+	defer its.mutex.RUnlock()
+	read()
+}
+
 // DoTransaction enables datatypes to perform a transaction.
 func (its *TransactionDatatype) DoTransaction(
 	tag string,
